@@ -843,6 +843,9 @@ def check_C02(tier):
     # histories in which the archive object is replaced (f.archive(B)) between evictions and re-loads
     scenario_random(run, BOUNDED + ['inf'], ['std', 'safe'], ['dictarch', 'file', 'dir'], 600 if t else 120, 40 if t else 30,
                     profile='setarch', maxsizes=(1, 2))
+    # results of a few hundred KB (compressed / plain directory entries and file archives are read and written in pieces)
+    scenario_random(run, ALLALG, ['std', 'safe'], ['dir-compressed', 'dir-compressed', 'dir', 'file'], 120 if t else 24, 16 if t else 12,
+                    variants=('big',), keymaps=[('str', True, False), ('hash-md5', True, False)], maxsizes=(1, 2))
     # fault injection: the archive's read fails once exactly when a call would be answered from the archive; the standard
     # decorators must not evaluate the function then (the 'safe' ones degrade to plain evaluation by contract: excluded)
     rng = run.rng
